@@ -20,6 +20,7 @@ VERIF = os.path.dirname(HERE)
 sys.path.insert(0, HERE)
 
 import findings  # noqa: E402
+import claims
 import leanbuild  # noqa: E402
 import oracles  # noqa: E402
 import plans  # noqa: E402
@@ -271,7 +272,10 @@ def main() -> int:
         "property_id": prop,
         "tier": tier,
         "seed": seed,
-        "level": plan.level if lb.obligations > 0 else "translation_validation",
+        # the level is the one claimed in MANIFEST.json (harness/claims.py); a property claimed as
+        # translation_validation may still carry supporting theorems (listed under coverage.theorems)
+        "level": (claims.CHECKS[prop][0] if (claims.CHECKS[prop][0] != "proof" or lb.obligations > 0)
+                  else "translation_validation"),
         "coverage": {
             "obligations": lb.obligations,
             "discharged": lb.discharged,
